@@ -7,6 +7,7 @@ package main
 import (
 	"context"
 	"fmt"
+	"os"
 	"strings"
 	"time"
 
@@ -26,6 +27,9 @@ type Scenario struct {
 	L1Lag    uint64    `json:"l1_lag"`
 	Sync     int       `json:"sync"`      // blocks stored before the pruner sees its first event
 	Interrupt bool     `json:"interrupt"` // explore every interruption point of the largest prune
+	Kind      string   `json:"kind,omitempty"` // "" pruner service | "long" | "migrate" | "runloop"
+	Long      *LongCfg `json:"long,omitempty"`
+	Mig       *MigCfg  `json:"mig,omitempty"`
 }
 
 type run struct {
@@ -39,6 +43,9 @@ type run struct {
 	p    *pruner.Pruner
 	obs  pruneObs
 	idx  []uint64 // block indices compared (nil = all)
+	ages  []uint64
+	specs []Spec  // content of every block (sc.Specs, or generated for long histories)
+	revertLow uint64 // revertAndExtend stops here when above the floor (long histories)
 	e    uint64 // intended floor: largest oldest-to-keep decided so far
 	tag  string
 }
@@ -93,7 +100,7 @@ func (r *run) probe(d db.KeyValueReader, head uint64) map[string]string {
 		bufs["cm"] = append(bufs["cm"], bit(e7))
 		// history logs of this block: only where the unpruned twin has one
 		ho, hn := byte('-'), byte('-')
-		for a, m := range r.sc.Specs[n].Storage {
+		for a, m := range r.specs[n].Storage {
 			for s := range m {
 				ko := db.DeprecatedContractStorageHistoryAtBlockKey(F(a), F(s), n)
 				if ok, _ := r.A.DB.Has(ko); ok {
@@ -132,6 +139,27 @@ func (r *run) probe(d db.KeyValueReader, head uint64) map[string]string {
 		out["bloom"] = strings.Join(ws, ",")
 	}
 	return out
+}
+
+func (r *run) probeBloom(d db.KeyValueReader, head uint64) string {
+	var ws []string
+	for w := uint64(0); w <= head; w += core.NumBlocksPerFilter {
+		if _, err := core.GetAggregatedBloomFilter(d, w, w+core.NumBlocksPerFilter-1); err == nil {
+			ws = append(ws, fmt.Sprint(w))
+		}
+	}
+	if len(ws) == 0 {
+		return "-"
+	}
+	return strings.Join(ws, ",")
+}
+
+var traceT = time.Now()
+
+func trace(what string) {
+	if os.Getenv("C16_TRACE") != "" {
+		fmt.Fprintf(os.Stderr, "[%7.2fs] %s\n", time.Since(traceT).Seconds(), what)
+	}
 }
 
 func (r *run) indices(head uint64) []uint64 {
@@ -180,7 +208,11 @@ func (r *run) compareModelStore(d db.KeyValueReader, head uint64, where string) 
 			ok = matches(got[f], model)
 		}
 		if !ok {
-			r.viol("model-store:"+f, fmt.Sprintf("%s: family %s database %s model %s", where, f, got[f], model), true)
+			extra := ""
+			if f == "bloom" {
+				extra = " (unpruned twin: " + r.probeBloom(r.A.DB, head) + ")"
+			}
+			r.viol("model-store:"+f, fmt.Sprintf("%s: family %s database %s model %s%s", where, f, got[f], model, extra), true)
 		}
 	}
 }
@@ -218,7 +250,10 @@ func (r *run) compareTwin(B *Node, e uint64, ctx string, withModelAns bool) {
 				r.viol("partial-below-floor:"+ctx+":"+name, fmt.Sprintf("block %d < floor %d: %s: unpruned %s pruned %s", n, e, name, clip(a), clip(b)), false)
 			}
 		}
-		// state as of block n, by number and by hash
+		// state as of block n, by number and by hash (long histories: around the floor and the head only)
+		if r.idx != nil && !(n+3 >= e && n <= e+1) && n+2 < head {
+			continue
+		}
 		for _, how := range []string{"number", "hash"} {
 			var sa, sb stateObs
 			nn, hh := n, r.bl[n].Block.Hash
@@ -258,16 +293,27 @@ func (r *run) compareTwin(B *Node, e uint64, ctx string, withModelAns bool) {
 	} else if d := firstDiff(sa.LastUpd, sb.LastUpd); d != "" {
 		r.viol("last-updated-block-changed:head", "head state: "+d, false)
 	}
-	// events from a few starting points
-	for _, from := range []uint64{0, e / 2, e, (e + head) / 2} {
-		if from > head {
+	// event queries: over retained ranges they must equal the twin's, with and without address / key
+	// filters; a range starting below the floor is refused (pruned) or exact
+	W := core.NumBlocksPerFilter
+	type rng struct{ from, to uint64 }
+	rs := []rng{{0, head}, {e / 2, head}, {e, head}, {(e + head) / 2, head}}
+	if wEnd := e - e%W + W - 1; wEnd < head { // the floor's own (persisted) window, and the boundary
+		rs = append(rs, rng{e, wEnd}, rng{e, wEnd + 1}, rng{wEnd + 1, head})
+	}
+	for _, q := range rs {
+		if q.from > head || q.from > q.to {
 			continue
 		}
-		ea, eb := observeEvents(r.A.BC, from, head), observeEvents(B.BC, from, head)
-		if from >= e && ea != eb {
-			r.viol("events-changed:"+ctx, fmt.Sprintf("events from %d (floor %d): unpruned %s pruned %s", from, e, clip(ea), clip(eb)), false)
-		} else if from < e && eb != "nf" && eb != ea {
-			r.viol("events-partial-below-floor:"+ctx, fmt.Sprintf("events from %d (floor %d): unpruned %s pruned %s", from, e, clip(ea), clip(eb)), false)
+		for _, flt := range [][2]uint64{{0, 0}, {500, 0}, {0, 901}, {502, 900}} {
+			ea, eb := observeEventsF(r.A.BC, q.from, q.to, flt[0], flt[1]), observeEventsF(B.BC, q.from, q.to, flt[0], flt[1])
+			r.c.Count("", false)
+			what := fmt.Sprintf("events [%d,%d] addr=%d key=%d (floor %d): unpruned %s pruned %s", q.from, q.to, flt[0], flt[1], e, clip(ea), clip(eb))
+			if q.from >= e && ea != eb {
+				r.viol("events-changed:"+ctx, what, false)
+			} else if q.from < e && eb != "nf" && eb != ea {
+				r.viol("events-partial-below-floor:"+ctx, what, false)
+			}
 		}
 	}
 	if withModelAns {
